@@ -34,6 +34,12 @@ def alphabet(n, names, phases=(math.pi / 2,)):
             A += [(nm, tuple(c for c in range(n) if c != t), t) for t in range(n)] if n >= 3 else []
         elif nm == "mcz":
             A += [("mctrl", "Z", tuple(c for c in range(n) if c != t), t) for t in range(n)] if n >= 2 else []
+        elif nm == "fan":
+            # compiled-circuit shape: a 3-qubit register feeding scratch qubits 3..n-1 (controls in the register, targets outside)
+            reg = [0, 1, 2]
+            A += [("x", q) for q in reg]
+            A += [("cx", c, t) for c in reg for t in range(3, n)]
+            A += [("ccx", a, b, t) for a in reg for b in reg if a < b for t in range(3, n)]
         elif nm == "barrier":
             A += [("barrier",)]
         else:
